@@ -604,3 +604,19 @@ theorem parse_printChord {low : Char → List Char} (hl : LowOK low) {ks : List 
   cases ks with
   | nil => exact absurd rfl hne
   | cons k t => rfl
+
+/-! ## the defect of the pinned tree, for the record
+
+Before the repair the `f<digits>` arm read `string[1..].parse().expect("coding error")`: an index that does not
+fit `usize` was a panic.  The repaired arm (the model above) returns `ParseError`. -/
+
+/-- the `f<digits>` arm as it was on the pinned tree -/
+def fArmPinned (tail : List Char) : Except PErr KeyName :=
+  match parseUsize tail with
+  | some n => .ok (.f n)
+  | none => .error .panic
+
+/-- `"f99999999999999999999999"`: panic on the pinned tree, `ParseError` now -/
+example : let s := 'f' :: List.replicate 23 '9'
+    fArmPinned s.tail = .error .panic ∧ parseKeyName (lowWith []) s = .error .parseError := by
+  constructor <;> rfl
